@@ -1,6 +1,8 @@
 """C19 — cascade gates fail closed and halted pipelines run nothing further."""
 from __future__ import annotations
 
+import contextlib
+import io
 import itertools
 from fractions import Fraction
 
@@ -81,7 +83,7 @@ class C19(Prop):
             r0 = rng.random()
             if r0 < 0.15:
                 # construction mode: run() must behave the same whatever `mode` the cascade was built with
-                case["lines"][0] += " " + rng.choice(["parallel", "conditional", "amplifying"])
+                case["lines"][0] += " " + rng.choice(["parallel", "conditional", "amplifying", "loud", "loud"])
             elif r0 < 0.3:
                 # an on_stage_complete observer (returns, or raises at one stage / always)
                 case["lines"].insert(1, "observer " + rng.choice(["ok", "always", f"at:{rng.randrange(k)}", f"at:{rng.randrange(k)}"]))
@@ -102,7 +104,8 @@ class C19(Prop):
                 for _ in range(rng.randint(1, 3)):
                     lines.append("run 0")          # 0 = a raw (non-dict) input; tiers are rendered 1, 2, 3
                     if rng.random() < 0.4:
-                        lines.append(rng.choice(["stats", "remove MAPKK", "remove MAPKKK",
+                        lines.append(rng.choice(["stats", "remove MAPKK", "remove MAPKKK", "setgate MAPK reject", "setgate MAPKKK freject",
+                                                 "setgate MAPKK none", "setamp MAPKK 1/2", "set halt 0", "set max 1/2",
                                                  # stub stages inserted into the preset must not depend on the (dict) signal
                                                  f"insert {rng.randint(0, 3)} {rng.choice(['none', 'pass', 'reject', 'raise', 'raise0'])} "
                                                  f"{rng.choice(['raise', 'raise0'])} none {rng.choice('01')} 2 x"]))
@@ -116,7 +119,12 @@ class C19(Prop):
                 names = [f"s{i}" for i in range(k)]
                 for _ in range(rng.randint(1, 5)):
                     r = rng.random()
-                    if r < 0.1 and not any(" nest " in l for l in lines):
+                    if r < 0.08 and names:
+                        lines.append(rng.choice([f"set halt {rng.choice('01')}", f"set max {rng.choice(MAXA)}",
+                                                 f"setgate {rng.choice(names)} {rng.choice(CP)}",
+                                                 f"setgate {rng.choice(names)} {rng.choice(['reject', 'raise', 'freject', 'none'])}",
+                                                 f"setamp {rng.choice(names)} {rng.choice(AMPS)}"]))
+                    elif r < 0.16 and not any(" nest " in l for l in lines):
                         lines.append(f"prun {rng.choice([0, 1, 2, 7])}")     # the fork entry point in between
                     elif r < 0.45:
                         lines.append(f"run {rng.choice([0, 1, 1, 2, 7, 11])}")
@@ -140,9 +148,12 @@ class C19(Prop):
         depth = 2 if tier == "quick" else 3
         alpha = [(cp, pr, eh, req, "2") for cp in ["none", "pass", "reject", "raise"] for pr in ("ok", "raise", "raise0")
                  for eh in ("none", "ok", "raise", "raise0") for req in (True, False)]
+        # quick tier: depth 2 without the empty-message exception variants (they are in depth 1, in the histories and in the
+        # random stream; the loop body is tied to the source for ALL stages by the translation and table theorems)
+        alpha2 = [a for a in alpha if "raise0" not in a] if tier == "quick" else alpha
         cases = []
         for k in range(1, depth + 1):
-            for stages in itertools.product(alpha, repeat=k):
+            for stages in itertools.product(alpha if k == 1 else alpha2, repeat=k):
                 for halt in (True, False):
                     cases.append(self._case(halt, "4", list(stages), 1, f"exhaustive depth {k}"))
         hist = []
@@ -156,6 +167,16 @@ class C19(Prop):
                         hist.append({"lines": [f"cfg {show_bool(halt)} 4", f"stage {g1} ok none 1 1 a",
                                                f"stage {g2} ok none 1 1 a", f"run {x}", f"run {x}"],
                                      "note": "exhaustive: two stages sharing a name"})
+        for halt in (True, False):
+            for g1 in ("none", "pass", "odd", "reject"):
+                for g2 in ("none", "pass", "odd", "reject", "raise0", "freject", "falsy"):
+                    hist.append({"lines": [f"cfg {show_bool(halt)} 4", f"stage {g1} ok none 1 2 a", "stage pass ok none 1 2 b", "run 1",
+                                           f"setgate a {g2}", "run 1", "run 2", f"set halt {show_bool(not halt)}", "setamp b 4",
+                                           "run 1", "set max 1/2", "run 1", "stats"],
+                                 "note": "exhaustive: gate / factor / configuration re-assigned on the live objects between runs"})
+        hist += [{"lines": [f"mapk {h} 1000 2 3 4", "run 0", f"setgate {nm} {g}", "run 0", "stats"],
+                  "note": "a gate installed on a tier of the live preset"}
+                 for h in "01" for nm in ("MAPKKK", "MAPKK", "MAPK") for g in ("reject", "freject", "raise", "none", "pass")]
         mapk = [{"lines": [f"mapk {h} {mx} {a} {a} {a}", "run 0", "run 0", "stats"], "note": "MAPK preset"}
                 for h in "01" for mx in ("100", "1000", "4") for a in ("10", "1", "0", "1/2")]
         mapk += [{"lines": [f"mapk {h} 1000 2 3 4", "run 0", "shadow mapk 5 5 5", "run 0", "stats"],
@@ -166,7 +187,7 @@ class C19(Prop):
                  for eh in ("none", "ok", "raise")]
         for halt in (True, False):
             for s1 in small:
-                for mode in ("parallel", "conditional", "amplifying"):
+                for mode in ("parallel", "conditional", "amplifying", "loud"):
                     c = self._case(halt, "4", [s1, ("pass", "ok", "none", True, "2")], 1, "exhaustive construction mode")
                     c["lines"][0] += " " + mode
                     extra.append(c)
@@ -269,10 +290,12 @@ class C19(Prop):
                 return [ValueError(), AssertionError(), RuntimeError(""), Boom()][made[0] % 4]
             return RuntimeError(what)
 
-        def mk(cp, pr, eh, req, amp, name):
-            d = {"cp": cp, "pr": pr, "eh": eh, "req": req, "amp": amp, "id": made[0], "name": name}
-            made[0] += 1
+        def gate_object(d):
+            """the checkpoint stub of descriptor d, of the kind d["cp"] says (None for kind none)"""
+            cp = d["cp"]
             i0 = d["id"]
+            if cp == "none":
+                return None
 
             def pos():
                 return next(k for k, x in enumerate(cur) if x is d)
@@ -293,7 +316,18 @@ class C19(Prop):
                     return ["", [], None, 0.0][i0 % 4]
                 return r
             if cp in ("fpass", "freject", "fraise"):
-                cpf = (FalsyGateLen if i0 % 2 else FalsyGateBool)(cpf)
+                return (FalsyGateLen if i0 % 2 else FalsyGateBool)(cpf)
+            return cpf
+
+        def mk(cp, pr, eh, req, amp, name):
+            d = {"cp": cp, "pr": pr, "eh": eh, "req": req, "amp": amp, "id": made[0], "name": name}
+            made[0] += 1
+            i0 = d["id"]
+
+            def pos():
+                return next(k for k, x in enumerate(cur) if x is d)
+
+            cpf = gate_object(d)
 
             def pf(x):
                 log.append(f"p{pos()}:{sig(x)}")
@@ -329,10 +363,12 @@ class C19(Prop):
                 if eh != "ok":
                     raise fault(eh, "e")
                 return 7000 + i0
-            st = m.CascadeStage(name, pf, amplification=amp, checkpoint=None if cp == "none" else cpf,
+            st = m.CascadeStage(name, pf, amplification=amp, checkpoint=cpf,
                                 on_error=None if eh == "none" else ef, required=req)
+            d["stage"] = st
             return d, st
 
+        swallowed = []        # the redirect_stdout context of a `loud` case
         depth = [0]
         forked = [False]      # inside run_parallel (callbacks run on worker threads)
         inner = []     # renderings of the nested runs started by `nest` processors during the current outer run
@@ -381,8 +417,14 @@ class C19(Prop):
                 if t[0] == "cfg" and len(t) in (3, 4):
                     mode = {"parallel": m.CascadeMode.PARALLEL, "conditional": m.CascadeMode.CONDITIONAL,
                             "amplifying": m.CascadeMode.AMPLIFYING}.get(t[3] if len(t) == 4 else "", m.CascadeMode.SEQUENTIAL)
+                    # `loud`: console output on (silent=False; stdout is swallowed for the duration of the case): the prints
+                    # format stage names, exceptions and the gain - they must not change what run() does
+                    loud = len(t) == 4 and t[3] == "loud"
+                    if loud and not swallowed:
+                        swallowed.append(contextlib.redirect_stdout(io.StringIO()))
+                        swallowed[0].__enter__()
                     casc = m.Cascade("c", mode=mode, halt_on_failure=t[1] == "1", max_amplification=float(Fraction(t[2])),
-                                     silent=True)
+                                     silent=not loud)
                     log.clear()
                     cur.clear()
                     made[0] = 0
@@ -406,7 +448,7 @@ class C19(Prop):
                     cmode[0] = "none"
                     for k, st_ in enumerate(added if added else list(getattr(casc, "_stages"))):
                         d = {"cp": "none" if st_.checkpoint is None else f"mapk{k + 1}", "pr": f"mapk{k + 1}", "eh": "none",
-                             "req": True, "amp": st_.amplification, "id": k, "name": st_.name}
+                             "req": True, "amp": st_.amplification, "id": k, "name": st_.name, "stage": st_}
                         cur.append(d)
 
                         def wrapp(f, d=d):
@@ -475,6 +517,29 @@ class C19(Prop):
                         sh.run(1)
                         shadows.append(sh)
                     obs.append("ok")
+                elif t[0] == "set" and len(t) == 3 and t[1] in ("halt", "max"):
+                    # public configuration attributes re-assigned on the live cascade (between runs)
+                    ensure()
+                    if t[1] == "halt":
+                        casc.halt_on_failure = t[2] == "1"
+                    else:
+                        casc.max_amplification = float(Fraction(t[2]))
+                    obs.append("ok")
+                elif t[0] in ("setgate", "setamp") and len(t) == 3:
+                    # public attributes of a live stage re-assigned (first stage carrying that name): a gate installed,
+                    # replaced or removed after construction; a factor changed
+                    ensure()
+                    d = next((x for x in cur if x["name"] == t[1]), None)
+                    if d is None:
+                        obs.append("0")
+                    elif t[0] == "setgate":
+                        d["cp"] = t[2]
+                        d["stage"].checkpoint = gate_object(d)
+                        obs.append("1")
+                    else:
+                        d["amp"] = float(Fraction(t[2]))
+                        d["stage"].amplification = d["amp"]
+                        obs.append("1")
                 elif t[0] == "stats" and len(t) == 1:
                     ensure()
                     g = casc.get_statistics()
@@ -534,6 +599,8 @@ class C19(Prop):
                     obs.append("bad-op")
             except Exception as e:
                 obs.append(f"raise:{type(e).__name__}")
+        if swallowed:
+            swallowed[0].__exit__(None, None, None)
         return obs, None
 
     # --- oracle: the property text, evaluated on what the real code did --------------------------------------
@@ -564,6 +631,16 @@ class C19(Prop):
                 k = next((k for k, b in enumerate(beh) if b[6] == t[1]), None)
                 if k is not None:
                     beh.pop(k)
+            elif t[0] == "set" and len(t) == 3:
+                if t[1] == "halt":
+                    halt = t[2] == "1"
+                elif t[1] == "max":
+                    maxa = Fraction(t[2])
+            elif t[0] in ("setgate", "setamp") and len(t) == 3:
+                k = next((k for k, b in enumerate(beh) if b[6] == t[1]), None)
+                if k is not None:
+                    b = beh[k]
+                    beh[k] = (t[2],) + b[1:] if t[0] == "setgate" else b[:4] + (Fraction(t[2]),) + b[5:]
             if t[0] == "prun":
                 continue       # run_parallel (fork, no pipeline order) is outside the property: correspondence only
             if o.startswith("raise:"):
